@@ -344,6 +344,20 @@ from vf import common
 ''' % VERIF
 
 
+REPLAY_MARK = "REPLAY-RESULT: property violated on the real code"
+
+
+def replay_exit(bad):
+    """to be returned from a replay script's main: prints the marker the
+    triage looks for (so that a crashing replay, which also exits 1, is
+    never mistaken for a reproduction)."""
+    if bad:
+        print(REPLAY_MARK + ": " + str(bad))
+        return 1
+    print("REPLAY-RESULT: not reproduced")
+    return 0
+
+
 def run_replay(path, timeout=600):
     """exit 1 -> reproduces; 0 -> does not; other -> broken replay"""
     env = dict(os.environ)
@@ -362,7 +376,7 @@ def triage(pid, unit_result, what, replay_path, match_info, findings=None):
     harness error in unit_result."""
     findings = load_findings(pid) if findings is None else findings
     rc, out = run_replay(replay_path)
-    if rc == 1:
+    if rc == 1 and REPLAY_MARK in out:
         for f in findings:
             if _matches(f, match_info):
                 unit_result.setdefault("known", []).append(
